@@ -104,3 +104,26 @@ func extractResolve(f *ast.File) (order []string, enter []string) {
 	}
 	return order, enter
 }
+
+// enterFuncShape reports whether compiler.enterFunc has the shape the Resolve model assumes: it records the name as
+// compiled and, when the name was compiled before, deletes from the table exactly the keys "<name>.<identifier>".
+func enterFuncShape(f *ast.File) bool {
+	fd := findMethod(f, "enterFunc")
+	if fd == nil {
+		bad(f, "compiler.enterFunc not found")
+		return false
+	}
+	body := squash(src(fd.Body))
+	for _, want := range []string{
+		`c.FuncName=name`,
+		`ifname==""{return}`,
+		`ifc.Globals.compiled[name]{forkey:=rangec.Globals.keyToIndex{ifstrings.HasPrefix(key,name+".")&&!strings.Contains(key[len(name)+1:],"."){delete(c.Globals.keyToIndex,key)}}}`,
+		`c.Globals.compiled[name]=true`,
+	} {
+		if !strings.Contains(body, want) {
+			bad(fd, "enterFunc: expected "+want)
+			return false
+		}
+	}
+	return true
+}
